@@ -678,6 +678,12 @@ func fieldName(t *types.Struct, i int) string {
 	if name == "_" || reservedKeywords[name] {
 		return fmt.Sprintf("%s$%d", name, i)
 	}
+	switch name {
+	case "constructor", "__proto__":
+		// Own properties with these names would shadow the JavaScript object's
+		// constructor/prototype links, which the runtime relies on.
+		return fmt.Sprintf("%s$%d", name, i)
+	}
 	return name
 }
 
